@@ -24,6 +24,7 @@ CONSTANTS MaxLen,      \* generation: script length bound
           Profile      \* "quick": a covering selection of single edits; "thorough": everything up to MaxLen
 
 NewS == "VerifNewStruct"
+NewS2 == "VerifNewStruct2"      \* a second new structure, so that new structures can extend each other (chains of 4 and more)
 NewE == "VerifNewKind"
 B(n) == [kind |-> "base", name |-> n]
 R(n) == [kind |-> "reference", name |-> n]
@@ -42,6 +43,8 @@ TyPool == [ string |-> B("string"), integer |-> B("integer"), uinteger |-> B("ui
             orNull |-> OrT(<<R("Range"), NullT>>),
             orBaseNull |-> OrT(<<B("integer"), NullT>>),
             literal |-> LitT2,
+            \* the same shape again, but with its first property marked proposed (two literals that differ only in a mark)
+            literalProposed |-> [kind |-> "literal", value |-> [properties |-> << [name |-> "first", type |-> B("string"), proposed |-> TRUE], LitProps[2] >>]],
             orLiteralNull |-> OrT(<<LitT2, NullT>>) ]
 TyNames == DOMAIN TyPool
 \* "@self": the property is named like the structure it is added to (as Command.command is)
@@ -58,10 +61,11 @@ MarkTexts == {"plain", "multiline", "crlf", "quotes"}
 \* "infix": a typeName that contains the word Request (Notification) also BEFORE its final suffix
 TypedKinds == {"none", "suffixed", "plain", "infix"}
 Edits ==
-    {[k |-> "AddStructure", name |-> NewS]}
+    {[k |-> "AddStructure", name |-> n] : n \in {NewS, NewS2}}
     \cup {[k |-> "AddProperty", target |-> t, name |-> n, ty |-> ty, optional |-> o] :
             t \in Targets \cup {NewS}, n \in PropNames, ty \in TyNames, o \in BOOLEAN}
-    \cup {[k |-> "AddExtends", target |-> NewS, parent |-> p] : p \in {"Position", "WorkDoneProgressParams", "HoverParams"}}
+    \cup {[k |-> "AddExtends", target |-> NewS, parent |-> p] : p \in {"Position", "WorkDoneProgressParams", "HoverParams", "HoverRegistrationOptions"}}
+    \cup {[k |-> "AddExtends", target |-> NewS2, parent |-> NewS]}
     \cup {[k |-> "AddMixin", target |-> NewS, parent |-> p] : p \in {"PartialResultParams", "WorkDoneProgressParams", "HoverOptions"}}   \* HoverOptions has a mixin of its own
     \cup {[k |-> "AddEnum", name |-> NewE, base |-> b] : b \in {"string", "uinteger"}}
     \cup {[k |-> "AddEnumValue", target |-> e] : e \in {"MarkupKind", "SymbolKind", NewE}}
@@ -70,7 +74,8 @@ Edits ==
             ty \in TypedKinds, p \in {"none", "ref"}, r \in {"ref", "orNull", "null", "enumArray"}}   \* enumArray: a closed enum reached through containers only
     \cup {[k |-> "AddNotification", typed |-> ty, params |-> p] : ty \in TypedKinds, p \in {"none", "ref"}}
     \cup {[k |-> "Mark", on |-> w, mark |-> m, text |-> tx] :
-            w \in {"structure", "property", "enumValue", "request"}, m \in Marks, tx \in MarkTexts}
+            \* soleEnumValue: the only value of a closed enumeration that has exactly one
+            w \in {"structure", "property", "enumValue", "soleEnumValue", "request"}, m \in Marks, tx \in MarkTexts}
     \cup {[k |-> "RemoveOptionalProperty", target |-> t] : t \in {"Hover", "CompletionItem", "Diagnostic"}}
 
 VARIABLES svScript
@@ -103,7 +108,9 @@ MustClosure(S) == LET S2 == MustStep(S) IN IF S2 = S THEN S ELSE MustClosure(S2)
 ClosesCycle(target, ty) == target \in MustClosure(MustContain(ty))
 
 Pre(e) ==
-    CASE e.k = "AddStructure" -> e.name \notin SName \cup EName \cup AName /\ ~ScriptHas("AddStructure")
+    CASE e.k = "AddStructure" -> /\ e.name \notin SName \cup EName \cup AName
+                                 /\ ~\E i \in DOMAIN svScript : svScript[i].k = "AddStructure" /\ svScript[i].name = e.name
+                                 /\ (e.name = NewS2 => ScriptHas("AddStructure"))
       [] e.k = "AddProperty" ->
             /\ (e.target = NewS => ScriptHas("AddStructure")) /\ (e.target # NewS => e.target \in SName)
             /\ e.name \notin AddedProps(e.target)
@@ -113,7 +120,8 @@ Pre(e) ==
             \* a required property cannot be added to a structure other declarations' minimal values rely on
             \* without changing every producer: the generator has no opinion, so both are allowed
       [] e.k \in {"AddExtends", "AddMixin"} ->
-            /\ ScriptHas("AddStructure") /\ e.parent \in SName /\ e.parent \notin ParentsAdded
+            /\ \E i \in DOMAIN svScript : svScript[i].k = "AddStructure" /\ svScript[i].name = e.target
+            /\ (e.parent \in SName \/ (e.parent = NewS /\ e.target = NewS2)) /\ e.parent \notin ParentsAdded
             /\ FlatNames(e.parent) \cap (AddedProps(NewS) \cup AllFlatNames(ParentsAdded \cap SName)) = {}
       [] e.k = "AddEnum" -> e.name \notin SName \cup EName \cup AName /\ ~ScriptHas("AddEnum")
       [] e.k = "AddEnumValue" -> (e.target = NewE => ScriptHas("AddEnum")) /\ (e.target # NewE => e.target \in EName /\ ~OpenMM(e.target))
@@ -142,6 +150,7 @@ QuickOK(e) ==
                                     \/ (e.typed = "plain" /\ e.params = "ref")
                                     \/ (e.typed = "infix" /\ e.params = "none")
       [] e.k = "Mark" -> \/ (e.mark = "proposed" /\ e.on # "request" /\ e.text = "plain")
+                         \/ (e.on = "soleEnumValue" /\ e.mark \in {"proposed", "deprecated"} /\ e.text = "plain")
                          \/ (e.mark = "notProposed" /\ e.text = "plain")
                          \/ (e.on = "structure" /\ e.mark = "since" /\ e.text \in {"plain", "crlf"})
                          \/ (e.on = "property" /\ e.mark = "deprecated" /\ e.text \in {"multiline", "quotes"})
